@@ -127,7 +127,7 @@ def stepFutex (r : FState) (o : Obs) : Except String FState :=
     match h.toNat?, f.toNat?, v.toNat? with
     | some h, some f, some v =>
       if a = .fr h ∧ r.s.fr h = .running ∧ r.s.fpc h = .idle ∧ ¬ r.inline.contains h then
-        .ok { r with s := { r.s with fr := upd r.s.fr h .suspended, fpc := upd r.s.fpc h (.wAlloc f v) } }
+        .ok { r with s := { r.s with fr := upd r.s.fr h .suspended }.setPc (.fr h) (.wAlloc f v) }
       else .error s!"frame {h} waits but the model has it {reprStr (r.s.fr h)} / {showPc (r.s.fpc h)} (running on this thread: {reprStr a})"
     | _, _, _ => .error "bad wait"
   | "ev", ["token", _, _, _] => .ok r
@@ -142,6 +142,8 @@ def stepFutex (r : FState) (o : Obs) : Except String FState :=
     match n.toNat?, ver.toNat? with
     | some n, some ver =>
       if a ≠ .cl t ∨ r.s.cpc t ≠ .idle then .error "call while the client is not idle"
+      else if (r.s.box n).used = false ∨ (r.s.box n).ver < ver then
+        .error "client contract: cancellation token that no emplace has issued"
       else if (r.s.box n).ver = ver ∧ (r.s.box n).taken = false ∧ (r.s.box n).pub = false then
         .error "client contract: cancellation token of a wait that is not linked yet"
       else .ok { r with s := r.s.setPc (.cl t) (.cTake n ver) }
